@@ -228,12 +228,12 @@ func (c *Conn) Write(p []byte) (int, error) {
 	}
 	if c.Closed {
 		err := c.OpErr("write", net.ErrClosed)
-		c.log("Write", 0, err, nil, nil)
+		c.log("Write", 0, err, p, nil)
 		return 0, err
 	}
 	if !c.wdl.IsZero() && !vsched.VNow().Before(c.wdl) {
 		err := c.OpErr("write", timeoutErr{})
-		c.log("Write", 0, err, nil, nil)
+		c.log("Write", 0, err, p, nil)
 		return 0, err
 	}
 	n := len(p)
